@@ -177,3 +177,24 @@ Definition chk_period1_validate (p : Q) (impl : option err) : bool := err_eqb (p
 Definition chk_periodn_validate (ps : list Q) (impl : option err) : bool := err_eqb (periodn_validate ps) impl.
 Definition chk_range_validate (len : Z) (a b : Q) (n : Z) (impl : option err) : bool :=
   err_eqb (range_validate len a b n) impl.
+
+(* ---- argument forms outside the modelled domain: the recorded policy of the code (which exception), part of the model
+   and compared in Coq with what the implementation raises ------------------------------------------------------------- *)
+Definition form_policy : list (string * option err) := [
+  ("PolygonMask2D: Fortran-ordered Nx2 vertex array", Some ErrValue);
+  ("Swizzle3D call: string argument", Some ErrType);
+  ("Swizzle2D: a number as the wrapped function", Some ErrType);
+  ("ClampInput1D(None): constructed, the call fails", Some ErrType);
+  ("PeriodicTransform1D: string period", Some ErrType);
+  ("Slice2D: axis None", Some ErrValue);
+  ("PolygonMask2D: empty vertex list", Some ErrValue);
+  ("PolygonMask2D: None", Some ErrType);
+  ("sample1d: list instead of range tuple", Some ErrType);
+  ("sample2d_points: Nx3 points", Some ErrValue);
+  ("sample3d_grid: 2-D axis array", Some ErrValue);
+  ("sample1d_points: read-only array", Some ErrValue)
+]%string.
+Fixpoint form_lookup (name : string) (t : list (string * option err)) : option (option err) :=
+  match t with [] => None | (n, e) :: r => if String.eqb n name then Some e else form_lookup name r end.
+Definition chk_form (name : string) (impl : option err) : bool :=
+  match form_lookup name form_policy with Some e => err_eqb e impl | None => false end.
